@@ -63,15 +63,29 @@ def _alpha_codes(x):
         else: cs.append(ord(a))
     return sorted(set(cs))
 
+def _bare_string_alias(d, env):
+    """a type assignment that only references an unconstrained known-multiplier string type: `B ::= A` with
+    `A ::= IA5String`, or `T ::= GeneralizedTime` (the time types are references to skeleton types themselves)"""
+    if d["k"] in TIME_KINDS: return True
+    if d["k"] != "REF": return False
+    x, n = d, 0
+    while x["k"] == "REF" and n < 16: x = env[x["name"]]; n += 1
+    return x["k"] in KM_KINDS + TIME_KINDS and not x.get("size") and not x.get("alpha")
+
+def _ext_alts_unordered(x, env, tagdefault):
+    """X.680 (ChoiceType): the tags of the extension addition alternatives must be in canonical order; asn1c accepts
+    modules that violate this and sorts the additions, so the index of an addition is not defined by X.691"""
+    if x.get("ext") is None or _auto(x, tagdefault): return False
+    keys = [order_key(c["type"], env, tagdefault) for c in x["comps"][x["ext"]:]]
+    return keys != sorted(keys)
+
 def type_region(t, env, tagdefault=None):
     """finding id of a type-level deviation region the type touches, or None"""
-    top = True
+    if _bare_string_alias(t, env): return "F111"
     for x in _types_below(t, env):
         k = x["k"]
-        if k == "REF":
-            tgt = env[x["name"]]
-            if tgt["k"] in TIME_KINDS: return "F111"       # named GeneralizedTime / UTCTime: 8 bits per character
-        elif top and k in TIME_KINDS: return "F111"
+        if k == "REF" and _bare_string_alias(env[x["name"]], env): return "F111"   # 8 bits per character
+        if k == "CHOICE" and _ext_alts_unordered(x, env, tagdefault): return "illegal-module:ext-alternatives-not-in-tag-order"
         if k == "INTEGER":
             c = x.get("cons")
             if c and c["ext"] and c["lo"] is None: return "F94"      # (MIN..ub,...) loses its extension bit (C09)
@@ -82,7 +96,6 @@ def type_region(t, env, tagdefault=None):
             if len(cs) == 1: return "F71"
             b = max(1, (len(cs) - 1).bit_length())
             if cs[-1] == (1 << b): return "F114"                     # ub == 2^b: off-by-one in X.691 30.5.4 test
-        top = False
     return None
 
 def value_region(t, v, env, tagdefault=None):
@@ -260,7 +273,87 @@ def fixed_module(rng, quick=True):
         [{"a": 1, "x": 2}, {"a": 1, "x": 2, "y": ("inner", ("b", True))}])
     return {"name": "UPF", "tagdefault": "IMPLICIT", "types": types}, vals
 
-PROPOSED_FINDINGS = []      # filled in below (witness + what), for the coordinator to merge into KNOWN_FINDINGS.json
+
+def _w(fid, what, module, type_, op, expect, matcher, x691):
+    return {"id": fid, "property": "C02", "properties": ["C02"], "status": "known", "what": what,
+            "witness": {"module": module, "type": type_, "op": op, "expect": expect, "x691": x691},
+            "matcher": matcher, "lean_reference": "Asn1c.Props.C02Uper.ref_%s_witness" % fid if fid in ("F110", "F111", "F112", "F113", "F114", "F28") else None}
+
+PROPOSED_FINDINGS = [
+    _w("F110", "UPER: a semi-constrained INTEGER (lb..MAX) is written as minimal TWO'S COMPLEMENT octets instead of the "
+               "non-negative-binary-integer of X.691 10.7.4/10.3.6: every value whose top bit is set gets an extra leading 00 octet "
+               "(INTEGER (0..MAX), 128 => 02 00 80 instead of 01 80); the decoder reads the octets as two's complement too, so the "
+               "standard encoding 01 80 of 128 is decoded as a negative number",
+       "M DEFINITIONS ::= BEGIN T ::= INTEGER (0..MAX) END", "T", "enc uper (int 128)", r"^ok 020080$",
+       "syntax == uper and an INTEGER (0..MAX) value v > 0 with v.bit_length() % 8 == 0", "ok 0180"),
+    _w("F111", "UPER: a type assignment that merely references an unconstrained known-multiplier string type gets no PER constraints "
+               "(same family as F38/F46): T ::= GeneralizedTime / UTCTime (the time types are references to skeleton types), or B ::= A with "
+               "A ::= IA5String / VisibleString / BMPString ...: the characters of T / B - and of every member, element or alternative of type "
+               "T / B - are written with 8 bits (BMPString: 8 instead of 16, losing the high octet) instead of the 7 bits of VisibleString / "
+               "IA5String (X.680 46.3/47.3, X.691 30.5); the same type used inline (g GeneralizedTime) or referenced directly (x A) is encoded "
+               "correctly, so one abstract type has two encodings",
+       "M DEFINITIONS ::= BEGIN T ::= GeneralizedTime END", "T", "enc uper (os 31393730303130313030303030305a)", r"^ok 0f31393730303130313030303030305a$",
+       "syntax == uper and the type is, or references, a type assignment that is a bare reference to an unconstrained known-multiplier string / time type", "ok 0f62e5bb060c583160c183060c2d00"),
+    _w("F112", "UPER: an extensible size constraint without upper bound, SIZE(lb..MAX,...): SET_OF/SEQUENCE_OF_encode_uper compare the count "
+               "with upper_bound = 0/-1 and set the extension bit for EVERY value inside the root (2 elements of SEQUENCE (SIZE(2..MAX,...)) OF => 81.. "
+               "instead of 01..), OCTET_STRING_encode_uper never sets it for a value outside the root (1 octet of OCTET STRING (SIZE(2..MAX,...)) => "
+               "00 b0 80 instead of 80 b0 80); X.691 20.4/17.3: the bit tells whether the count is in the root",
+       "M DEFINITIONS ::= BEGIN T ::= SEQUENCE (SIZE(2..MAX,...)) OF BOOLEAN END", "T", "enc uper (list (bool t) (bool t))", r"^ok 8160$",
+       "syntax == uper and the type contains SIZE(lb..MAX,...) on a string / SEQUENCE OF / SET OF", "ok 0160"),
+    _w("F113", "UPER: a known-multiplier character string whose extensible SIZE is exceeded is written with 8/16/32-bit characters "
+               "(canonical_unit_bits) instead of the character width of the unconstrained type (IA5String/VisibleString/PrintableString 7 bits, "
+               "NumericString 4 bits): X.691 30.4 'as if there was no effective size constraint ... permitted alphabet = all characters of the "
+               "unconstrained type'; the decoder expects the same, so standard encodings are not understood (81 e1 c5 8c => RC_WMORE)",
+       "M DEFINITIONS ::= BEGIN T ::= IA5String (SIZE(1..2,...)) END", "T", "enc uper (os 616263)", r"^ok 81b0b13180$",
+       "syntax == uper and a value of IA5String/VisibleString/PrintableString/NumericString with extensible SIZE whose length is outside the root", "ok 81e1c58c"),
+    _w("F114", "UPER: OCTET_STRING_per_put/get_characters test `ub <= 2 << (unit_bits-1)` (= 2^b) where X.691 30.5.4 says ub <= 2^b - 1: for a "
+               "permitted alphabet whose largest character value is exactly 2^b (FROM(\" \"..\"@\"): N = 33, b = 6, ub = 64) the characters are "
+               "written by value in b bits, so the largest character is truncated to 0 ('@' => 000000) and the round trip returns NUL",
+       "M DEFINITIONS ::= BEGIN T ::= IA5String (FROM(\" \"..\"@\")) END", "T", "enc uper (os 2040)", r"^ok 028000$",
+       "syntax == uper and a FROM alphabet of N characters whose largest value equals 2^ceil(log2 N)", "ok 020200"),
+    _w("F28", "UPER CHOICE: the generated to_canonical / from_canonical tables are used swapped (the encoder indexes from_canonical with the "
+              "presence index): CHOICE { a [2] NULL, b [0] NULL, c [1] NULL } encodes a, b, c as 1, 2, 0 instead of the canonical indexes 2, 0, 1 "
+              "(X.691 23.2, X.680 8.6); invisible when the permutation is an involution; encoder and decoder agree with each other",
+       "M DEFINITIONS ::= BEGIN T ::= CHOICE { a [2] NULL, b [0] NULL, c [1] NULL } END", "T", "enc uper (choice a (null))", r"^ok 40$",
+       "syntax == uper and a CHOICE value selecting root alternative i with order[order[i]] != i (order = canonical order of the root alternatives)", "ok 80"),
+    _w("F19", "UPER: BIT_STRING_encode_uper strips the trailing zero bits of EVERY BIT STRING value (BIT_STRING__compactify), also of types without "
+              "named bits: '10'B of BIT STRING => 01 80 (one bit) instead of 02 80; X.691 16.2/16.3 allow that only for types with a named bit list; "
+              "the value does not round-trip",
+       "M DEFINITIONS ::= BEGIN T ::= BIT STRING END", "T", "enc uper (bs 80 6)", r"^ok 0180$",
+       "syntax == uper and a BIT STRING value whose last bit is 0", "ok 0280"),
+    _w("F15", "ENUMERATED { a(1), b }: asn1f_fix_enum numbers b = 2 (max so far + 1) where X.680 20.3 assigns 0 (smallest unused), so the PER "
+              "enumeration indexes differ: value 1 is index 0 instead of 1 (and the value 0 does not exist)",
+       "M DEFINITIONS ::= BEGIN T ::= ENUMERATED { a(1), b } END", "T", "enc uper (enum 1)", r"^ok 00$",
+       "an ENUMERATED mixing numbered and un-numbered items where max+1 numbering differs from X.680 20.3", "ok 80"),
+]
+
+def replay_proposed(ctx):
+    """one bundle with the witness types of all proposed findings: each must still show the deviation"""
+    import re
+    known = {f["id"] for f in ctx.findings}
+    types, lines, ids = [], [], []
+    for i, f in enumerate(PROPOSED_FINDINGS):
+        w = f["witness"]
+        body = w["module"].split("BEGIN", 1)[1].rsplit("END", 1)[0].strip()
+        body = re.sub(r"\bT\b(?=\s*::=)", f"W{i}", body, count=1)
+        types.append((f"W{i}", body)); lines.append(f"@W{i} {w['op']}"); ids.append(f)
+    txt = "UPW DEFINITIONS ::= BEGIN\n" + "\n".join("  " + b for _, b in types) + "\nEND\n"
+    b = bundle.Bundle("UPW", txt, [n for n, _ in types])
+    res = {}
+    try:
+        exe = b.build()
+        outs, _ = ctx.run_c_bisect(exe, lines)
+        for f, o in zip(ids, outs):
+            still = bool(re.search(f["witness"]["expect"], str(o)))
+            res[f["id"]] = still
+            if still and f["id"] in known: ctx.known(next(x for x in ctx.findings if x["id"] == f["id"]))
+            elif not still: ctx.log(f"note: proposed finding {f['id']} no longer reproduces on its witness ({str(o)[:80]})")
+    except Exception as e:
+        ctx.log("proposed-finding witnesses could not be built:", str(e)[:200])
+    finally:
+        b.cleanup()
+    ctx.cov["predicate"]["uper_deviation_witnesses"] = res
+    return res
 
 # ------------------------------------------------------------------------------------------------ run
 def run_uper(ctx, nb=None, nvals=None):
@@ -276,6 +369,7 @@ def run_uper(ctx, nb=None, nvals=None):
         cases.append((m, {n: vg.values(t, nvals) for n, t in m["types"]}))
     skipped = collections.Counter()
     allst = collections.Counter(); alldis = []
+    replay_proposed(ctx)
     for m, vals in cases:
         vals = filter_values(m, vals, skipped)
         sk = lambda syn, t, env, m=m: type_skip(syn, t, env, m.get("tagdefault"), skipped)
